@@ -45,6 +45,21 @@ def copies_are_deep(ctx, rule, with_mk_copy=True):
     deep, why = _mk_copy_is_deep(mk)
     if with_mk_copy:
         ctx.ob(rule, 'mk_copy deep', deep, 'ContainerBase.mk_copy ' + why, fi=mk)
+    # a shallow copy.copy(self) also copies the reference to the per-object storage of observable properties
+    # (_property_instance_data, used by `node`): the copy must be given its own, or setting copy.node sets self.node
+    shallow = [c for c in calls_in(mk.node, 'copy') if isinstance(c.func, ast.Attribute) and unparse(c.func.value) == 'copy'
+               and c.args and unparse(c.args[0]) == 'self']
+    cb = repo.cls('sdc11073.mdib.containerbase.ContainerBase')
+    has_observable = any(isinstance(v, ast.Call) and call_name(v) == 'ObservableProperty' for v in cb.assigns.values())
+    own_storage = any((isinstance(x, ast.Constant) and x.value == '_property_instance_data') or
+                      (isinstance(x, ast.Attribute) and x.attr == '_property_instance_data') for x in ast.walk(mk.node))
+    ctx.ob(rule, 'copy has its own observable storage', not (shallow and has_observable) or own_storage,
+           'mk_copy gives the copy its own storage for observable properties' if own_storage else
+           'mk_copy does not copy shallowly / the class has no observable property'
+           if not (shallow and has_observable) else
+           'mk_copy starts from copy.copy(self) and leaves _property_instance_data (the storage of the observable `node`) '
+           'shared with self: mk_copy(copy_node=True) and every `copy.node = ..` replace the node of the original object',
+           fi=mk)
     n = 0
     for q, ci in sorted(repo.classes.items()):
         if not q.startswith(XS + '.'):
